@@ -437,14 +437,14 @@ func shortT(t reflect.Type) string {
 }
 
 type Mid struct {
-	L    Leaf             `valid:"required"`
-	PL   *Leaf            `valid:"exist"`
-	SL   []*Leaf          `valid:"required"`
-	ML   map[string]Leaf  `valid:"exist"`
-	U    Leaf             // unmarked: never validated
-	T    time.Time        `valid:"required"`
-	priv Leaf             `valid:"required"`
-	N    int              `valid:"ge=2"`
+	L    Leaf            `valid:"required"`
+	PL   *Leaf           `valid:"exist"`
+	SL   []*Leaf         `valid:"required"`
+	ML   map[string]Leaf `valid:"exist"`
+	U    Leaf            // unmarked: never validated
+	T    time.Time       `valid:"required"`
+	priv Leaf            `valid:"required"`
+	N    int             `valid:"ge=2"`
 }
 
 type Embedded struct {
@@ -452,18 +452,18 @@ type Embedded struct {
 }
 
 type Parent struct {
-	Name string           `valid:"required|名字"`
-	M    Mid              `valid:"required"`
-	PM   *Mid             `valid:"exist"`
-	PPM  **Mid            `valid:"exist"`
-	SM   []Mid            `valid:"exist"`
-	AM   [2]*Mid          `valid:"required"`
-	MM   map[string]*Mid  `valid:"required"`
-	MI   map[int]*Mid     `valid:"exist"`
-	UM   *Mid             // unmarked
-	Embedded              `valid:"required"`
-	When time.Time        `valid:"required"`
-	PW   *time.Time       `valid:"exist"`
+	Name     string          `valid:"required|名字"`
+	M        Mid             `valid:"required"`
+	PM       *Mid            `valid:"exist"`
+	PPM      **Mid           `valid:"exist"`
+	SM       []Mid           `valid:"exist"`
+	AM       [2]*Mid         `valid:"required"`
+	MM       map[string]*Mid `valid:"required"`
+	MI       map[int]*Mid    `valid:"exist"`
+	UM       *Mid            // unmarked
+	Embedded `valid:"required"`
+	When     time.Time  `valid:"required"`
+	PW       *time.Time `valid:"exist"`
 }
 
 type namedCase struct {
